@@ -331,3 +331,47 @@ func VfC12_EntryPoints() {
 		vfAssert("C12.entry-points.same-output", vfAnd(m1.String() == s0, m2.String() == s0))
 	}
 }
+
+// VfC12_GoroutineSchedules: should the translator (or the printer) start
+// goroutines of its own, the result must not depend on when they run.  The
+// same text is translated with every such goroutine running to completion
+// where it is spawned and with every one of them running only when its
+// spawner waits for it (the two extreme schedules of the sequentialised
+// goroutine model): same verdict, same printed output.  The text has work for
+// every translation step, among them module-level use-list orders (of a global
+// and of a blockaddress constant) and blockaddress constants in initialisers;
+// one variant refers to a block that does not exist.
+//
+//vf:unwind 400
+//vf:steps 200000000
+func VfC12_GoroutineSchedules() {
+	bad := vfChoice("undefined-block", 2) == 1
+	blk := "%bb"
+	if bad {
+		blk = "%nosuch"
+	}
+	src := hC12Source() +
+		"define void @ba(i8** %p) {\nbb:\n\tstore i8* blockaddress(@ba, %bb), i8** %p\n\tbr label %cc\ncc:\n\tret void\n}\n" +
+		"@t1 = global i8* blockaddress(@ba, %bb)\n@t2 = global i8* blockaddress(@ba, %cc)\n" +
+		"@w0 = global i32 0\n@w1 = global i32* @w0\n@w2 = global i32* @w0\n" +
+		"uselistorder i32* @w0, { 1, 0 }\n" +
+		"uselistorder i8* blockaddress(@ba, " + blk + "), { 1, 0 }\n"
+	vfGoMode(0)
+	m0, e0 := ParseString("a.ll", src)
+	var s0 string
+	if e0 == nil {
+		s0 = m0.String()
+	}
+	vfGoMode(1)
+	m1, e1 := ParseString("b.ll", src)
+	var s1 string
+	if e1 == nil {
+		s1 = m1.String()
+	}
+	vfGoMode(0)
+	vfReach("C12.goroutine-schedules")
+	vfObserveStr("src", src)
+	vfAssert("C12.goroutine-schedules.undefined-block-rejected", vfImp(bad, e0 != nil))
+	vfAssert("C12.goroutine-schedules.same-verdict", (e0 == nil) == (e1 == nil))
+	vfAssert("C12.goroutine-schedules.same-output", s0 == s1)
+}
